@@ -416,6 +416,25 @@ def correspond(model_ok, res):
         judge(inputs, sched, outs, gate, "random-schedule")
         runs.append((inputs, sched, outs))
 
+    # --- 2b. quantities that are harmless in one thread but add up across threads (nesting depth, length):
+    # every thread parses a deeply nested / long query, round-robin schedule so that all are in flight together
+    n_heavy = 6 if quick else 40
+    for i in range(n_heavy):
+        n = r.choice([4, 5, 6])
+        inputs = []
+        for t in range(n):
+            d = r.randrange(28, 46)
+            if i % 3 == 2:
+                q = " ".join("w%d_%d" % (t, j) for j in range(d * 2))
+            else:
+                q = "(" * d + "a%d:1 OR b%d" % (t, i) + ")" * d
+            inputs.append([q])
+        longest = max(rig.count_tokens(ins[0]) for ins in inputs)
+        sched = [t for _ in range(longest + 2) for t in range(n)]
+        outs, gate = rig.run(inputs, sched)
+        judge(inputs, sched, outs, gate, "heavy-round-robin")
+        runs.append((inputs, sched, outs))
+
     # --- 3. free-running stress, tiny switch interval
     stress_rounds = 6 if quick else 40
     stress_calls = 0
